@@ -172,7 +172,8 @@ Print Assumptions C03_lut_decode_eq_canonical.
 
 (** The packed-table fast path (buildPackedTable / accumulateHCode / readPackedSymbols,
     selected by readHuffmanCodes when the maximal code lengths of the green, red, blue and
-    alpha codes sum to less than HuffmanPackedBits = 6): for all four length vectors with
+    alpha codes sum to less than HuffmanPackedBits = 6; proved for sums up to 6, all the 64-entry
+    table can hold): for all four length vectors with
     maxima mg..ma, their root-8 lookup tables and every prefetched window, the 64-entry
     packed table returns the same symbol(s) and consumes the same number of bits as walking
     the four canonical code trees one after the other (a non-literal green symbol alone; a
@@ -180,7 +181,7 @@ Print Assumptions C03_lut_decode_eq_canonical.
 Theorem C03_packed_read_eq_sequential :
   forall lg lr lb la mg mr mb ma tg tr tb ta g r b a w,
   table_of lg mg tg g -> table_of lr mr tr r -> table_of lb mb tb b -> table_of la ma ta a ->
-  mg + mr + mb + ma < 6 -> 0 <= w ->
+  mg + mr + mb + ma <= 6 -> 0 <= w ->
   seq_read tg tr tb ta w = Some (packed_read (packed_build g r b a) w).
 Proof. exact packed_read_eq_sequential. Qed.
 Print Assumptions C03_packed_read_eq_sequential.
@@ -191,7 +192,7 @@ Print Assumptions C03_packed_read_eq_sequential.
 Theorem C03_packed_read_eq_lut_reads :
   forall lg lr lb la mg mr mb ma tg tr tb ta g r b a w,
   table_of lg mg tg g -> table_of lr mr tr r -> table_of lb mb tb b -> table_of la ma ta a ->
-  mg + mr + mb + ma < 6 -> 0 <= w ->
+  mg + mr + mb + ma <= 6 -> 0 <= w ->
   packed_read (packed_build g r b a) w = seq_read_lut g r b a w.
 Proof. exact packed_read_eq_lut_reads. Qed.
 Print Assumptions C03_packed_read_eq_lut_reads.
@@ -205,7 +206,7 @@ Theorem C03_packed_read_eq_spec_pixel :
   forall lg lr lb la mg mr mb ma tg tr tb ta g r b a w res n k rest,
   table_of lg mg tg g -> table_of lr mr tr r -> table_of lb mb tb b -> table_of la ma ta a ->
   length lr = 256%nat -> length lb = 256%nat -> length la = 256%nat ->
-  mg + mr + mb + ma < 6 -> 0 <= w ->
+  mg + mr + mb + ma <= 6 -> 0 <= w ->
   packed_read (packed_build g r b a) w = (res, n) -> (Z.to_nat n <= k)%nat ->
   spec_read_pixel tg tr tb ta (put_bits k w ++ rest) = Ok (res, put_bits (k - Z.to_nat n) (w / 2 ^ n) ++ rest).
 Proof. exact packed_read_eq_spec_pixel. Qed.
